@@ -202,8 +202,8 @@ func init() {
 
 func init() {
 	register("C18",
-		"Decides structural necessary conditions of C18 in the hand-written timestamp parser: the instant is assembled by time.Date from the digit fields at the RFC 3339 offsets, in the right argument order, each parsed without error (PT-FIELDS), with the separators checked at their fixed offsets (PT-SEP); a ten-character date is midnight UTC (PT-DATE); nothing may be left over (PT-REM); the per-digit scale of the fraction is guarded so extra digits cannot erase it (TS-FRAC); a numeric zone is sign*(hh*3600+mm*60) of its own digits with '+'/'-'/'Z' handled (TZ-SIGN) and the zone cache is keyed by the offset it builds (TZ-KEY); all constant and range-index offsets stay inside an established minimum length, so no input panics (TL-IDX); times are written with the full-precision layout (FMT-NANO); errors of the digit parsers are checked (ER-CHECK). "+
-			"Not decided: agreement with time.Parse as a value-level equivalence for all strings (digit-to-number arithmetic, validation of field ranges such as month 13).",
+		"Decides necessary conditions of C18 in the hand-written timestamp parser by folding it (constant propagation with path forking, no execution) over symbolic strings of every relevant length whose bytes are unknown but individually named, every computed number being an exact table over the 256 values of each byte it depends on: on every accepting path the year, month, day, hour, minute and second handed to time.Date depend on exactly the bytes at the RFC 3339 offsets (PT-FIELDS), each of those bytes is accepted exactly when it is '0'-'9' and the number is the decimal value of the digits (PT-DIGITS), the separators were found at their offsets (PT-SEP), a ten-character date is midnight UTC (PT-DATE), nothing may be left over (PT-REM); no rejecting path is consistent with a well-formed timestamp whose fields are in range, so nothing the standard library accepts is refused (PT-ACCEPT); the zone offset is +/-(36000a+3600b+600c+60d) of the zone's own digits around a checked colon, with the sign of the leading character, 'Z' is time.UTC (TZ-SIGN); the nanoseconds are the first nine fraction digits scaled, later digits ignored, for one to twelve digits (TS-FRAC); the zone cache is keyed by the offset it builds (TZ-KEY) and is the only package state touched (PT-PURE); every constant or range-index offset lies within an established minimum length and, independently, no path over any input of up to 32 (thorough: 56) bytes ends in a run-time panic (TL-IDX); times are written with the full-precision RFC 3339 layout (FMT-NANO); errors of the digit parsers are checked (ER-CHECK). When the fold cannot follow the code the older structural reading of the same clauses is used and said so. "+
+			"Not decided: calendar validity (day 29-31 against the month, leap seconds), what time.Date and time.FixedZone do with the numbers, inputs longer than the folded lengths for the no-panic clause (they differ only in the number of fraction digits), non-ASCII bytes inside the fraction beyond an over-approximation of the UTF-8 step. ",
 		func(c *Ctx) {
 			ruleParseTime(c)
 			rulePTPure(c)
